@@ -2,6 +2,7 @@ import BarterModel.Lemmas.Stale
 import BarterModel.Lemmas.Orders
 import BarterModel.Lemmas.Review1
 import BarterModel.Lemmas.KernelsAgree.RegistersSM
+import BarterModel.Lemmas.KernelsAgree.OrdersSM
 /-!
 # C09 — Late or duplicate exchange messages never roll engine state back
 
@@ -556,5 +557,17 @@ example : heldMeta (stateOf (run [] (([EpisodeEv.report ⟨1, 5, 0⟩] ++ Episod
     [EpisodeEv.report ⟨1, 2, 0⟩, EpisodeEv.cancelSent, EpisodeEv.cancelFailed,
      EpisodeEv.report ⟨1, 1, 5⟩]).map (EpisodeEv.toOp 7 10 100))) 7)
     = some ⟨1, 2, 0⟩ := by decide +kernel
+
+/-- **Translator tie (map machine), order part.** The open-order register of this property lives inside
+`Orders::update_from_order_snapshot` (the `current.time_exchange <= update.time_exchange` guards in the arms over the
+`FnvHashMap` Entry API). That function and the other three entry points of the order table are regenerated from the
+current source by `tools/rust2lean_sm.py` on every run (`Generated/Machines3.lean`, group `orders`, the map read through
+the translator's explicit map vocabulary) and proved equal, for ALL tables and inputs and all key types, to the
+`BarterModel.Orders` model the order theorems of this file are about (`open_reports_register`,
+`order_details_episode_register`, …). This re-exports C01's `map_machine_agrees_with_source`; the statement is that of
+`KernelsAgree.OrdersSM.orders_sm_agree` (Lemmas/KernelsAgree/OrdersSM.lean). -/
+theorem map_machine_agrees_with_source (A I : Type) [DecidableEq A] [DecidableEq I] :
+    type_of% (@BarterModel.KernelsAgree.OrdersSM.orders_sm_agree A I _ _) :=
+  BarterModel.KernelsAgree.OrdersSM.orders_sm_agree
 
 end BarterModel.Props.C09
